@@ -12,6 +12,9 @@ CLAIMED = {
  'C02': ('bounded-exhaustive operator pairs/triples + proptest-generated deeper expressions, differential against an independent precedence-climbing parser, plus fully-parenthesised re-parse (metamorphic)',
          'Every ordered pair (x4 layout/atom variants) and triple (x2) of all 54 operators of an independent operator table, level-representative triples with one operand wrapped in ( ) or { }, level-representative quadruples (thorough) and random deeper expressions with groups; the parse tree must equal the tree a table-driven Pratt parser produces, and re-parsing the fully parenthesised print of the obtained tree must give the same tree modulo Group nodes.',
          'Trusts the operator table of DESIGN.md Appendix A (model/optable.rs) and the ~100-line reference parser; rejected inputs and lexical merges are counted, never judged.', 'DESIGN.md §3 C02'),
+ 'C03': ('bounded-exhaustive token-class sequences + proptest-generated token and character soups + scaling families; oracle: every stage returns (catch_unwind, watchdog, cycle pre-detection)',
+         'Every sequence of up to 4 (quick) / 5 (thorough) token classes out of 30 (one per parser token class) x 3 separators, random token soups (to 400 tokens) and raw character soups (control characters, quotes, backslash, NUL, multi-byte), and 20 scaling families up to n=2048 / 16384; lex, parse and build into both data implementations must return Ok or Err without panic, abort, hang (5 s watchdog, 30 s for scaling) or a cyclic parse result.',
+         'Termination is decided up to the watchdog budget; the polynomial-time clause only by absolute deadlines on fixed families (no proof).', 'DESIGN.md §3 C03'),
  'C09': ('bounded-exhaustive enumeration + proptest-generated operand tapes against an i128 / IEEE-754 reference',
          'Every ordered pair of the 187-value boundary lattice x 12 binary operators and lattice+float pool x 5 unary operators exhaustively, a 62x62 float/mixed matrix, plus millions of random i32/f64 pairs; each compared on the GarnishNumber methods and on the executed instruction for both data implementations with a wide-integer/IEEE reference. Exhaustive on the stated lattice, sampled beyond it.',
          'Trusts the i128/f64 reference in checks/c09.rs and the platform powf; operands are finite.', 'DESIGN.md §3 C09'),
